@@ -1,4 +1,5 @@
 import ProcSim.Model.Sim
+import ProcSim.Model.Loader
 /-!
 Canonical, `decide`-friendly form of a simulation outcome over `Nat` names — used by the generated "kernel samples"
 (checks/kernel_samples.py): the harness takes inputs and the *implementation's* outputs, maps names to numbers
@@ -17,5 +18,32 @@ def outcomeCanon : Outcome Nat → Nat × List (List (Nat × List (Nat × Nat)))
   | .done t => (0, t.map canonRowNat)
   | .stall t => (1, t.map canonRowNat)
   | .fault _ => (2, [])
+
+end ProcSim
+
+namespace ProcSim
+
+/-- one unit as a flat list of numbers: class (0 input, 1 in-out, 2 output, 3 internal), name, width, read lock,
+write lock, then three length-prefixed lists: capabilities, memory-access list, predecessor names (sorted) -/
+def unitRowNat (cls : Nat) (m : UnitM Nat) (preds : List Nat) : List Nat :=
+  [cls, m.name, m.width, m.rd.toNat, m.wr.toNat] ++ (m.caps.length :: m.caps) ++ (m.acl.length :: m.acl) ++
+    (preds.length :: isort (fun a b => decide (a ≤ b)) preds)
+
+/-- canonical loaded processor: one row per unit, rows sorted by name -/
+def procCanonNat (p : Proc Nat) : List (List Nat) :=
+  isort (fun a b => decide (a.getD 1 0 ≤ b.getD 1 0))
+    (p.inPorts.map (fun m => unitRowNat 0 m []) ++ p.inOut.map (fun m => unitRowNat 1 m []) ++
+     p.outPorts.map (fun f => unitRowNat 2 f.model f.preds) ++ p.internal.map (fun f => unitRowNat 3 f.model f.preds))
+
+/-- error class codes in the order of `DefectClass` -/
+def classCode : Loader.DefectClass → Nat
+  | .dupElem => 1 | .badWidth => 2 | .badEdge => 3 | .undefElem => 4 | .cyclic => 5 | .deadInput => 6
+  | .emptyProc => 7 | .pathLock => 8 | .blockedCap => 9
+
+/-- (0, canonical processor) for an accepted description, (class code, []) for a rejected one -/
+def loadCanonNat (d : Loader.Desc Nat) : Nat × List (List Nat) :=
+  match Loader.load id d with
+  | .ok p => (0, procCanonNat p)
+  | .error e => (classCode e.cls, [])
 
 end ProcSim
